@@ -68,6 +68,24 @@ func (c11) Gen(r *rand.Rand, tier string, run int) *core.Case {
 		c.Ops = []core.Op{{Kind: "scenario", X: int64(block / 10 % 4)}}
 		return c
 	}
+	if block%10 == 5 {
+		// a block in which a subscriber does not read while more events
+		// arrive than its queue holds (100), a call is made, then the
+		// connection is lost: the overflow must not keep the endpoint from
+		// noticing (events beyond the capacity are dropped, that is the
+		// contract)
+		delete(c.Params, "app_close")
+		c.Params["scenario"] = 2
+		c.Params["flood"] = []int{90, 101, 102, 103, 130}[j%5]
+		c.Params["stall"] = 0
+		c.Params["flood_loss"] = 1 + j/5%3
+		c.Params["flood_delay"] = j / 15 % 40
+		c.Params["tape_seed"] = int(br.Uint64()>>34) + j
+		c.Params["fault_op"] = -5
+		c.Batch = "scenario-c-flooded-subscriber"
+		c.Ops = []core.Op{{Kind: "scenario", X: 2}}
+		return c
+	}
 	if block%10 == 3 {
 		// a block in which the peer dies after exactly N more bytes have
 		// reached the client, N = 0, 1, 2, ... from the start of the scenario
@@ -179,7 +197,9 @@ func (c11) Run(c *core.Case, env *core.Env) {
 		st.mu.Lock()
 		st.regProxy = zzsim.Seq()
 		st.mu.Unlock()
-		if mode := c.P("stall", 0); mode > 0 {
+		if n := c.P("flood", 0); n > 0 {
+			c11flood(c, env, st, w, cl, p, n)
+		} else if mode := c.P("stall", 0); mode > 0 {
 			conn := env.NW.Conns()[0]
 			done := make(chan struct{})
 			go func() {
@@ -225,6 +245,60 @@ func (c11) Run(c *core.Case, env *core.Env) {
 		_, err := cl.Call(nil, w.ServiceID, 1, ActNoarg, nil)
 		env.Return(h, "", err)
 	}
+}
+
+// c11flood: a subscriber that does not read, n events, a call, then the loss.
+func c11flood(c *core.Case, env *core.Env, st *c11state, w *World, cl bus.Client, p probe.ProbeProxy, n int) {
+	h := env.Invoke(1, "subscribe", "tick")
+	_, ch, err := p.SubscribeTick()
+	env.Return(h, "", err)
+	if err != nil {
+		return
+	}
+	st.mu.Lock()
+	st.subs++
+	st.mu.Unlock()
+	zzsim.SetNode("server")
+	for k := int32(1); k <= int32(n); k++ {
+		w.Impls[0].Helper.SignalTick(k)
+	}
+	zzsim.SetNode("harness")
+	env.S.Quiesce()
+	env.Probe("subscriber-flooded")
+	done := make(chan struct{})
+	go func() {
+		defer close(done)
+		c11call(env, p, "echo", 1, 0)
+	}()
+	for j := 0; j < c.P("flood_delay", 0); j++ {
+		zzsim.Yield("h.flood-delay")
+	}
+	conn := env.NW.Conns()[0]
+	mode := c.P("flood_loss", 1)
+	seq := zzsim.Seq()
+	st.mu.Lock()
+	st.appClose = seq
+	st.lossKind = []string{"", "app-close-with-flooded-subscriber", "peer-reset-with-flooded-subscriber", "peer-close-with-flooded-subscriber"}[mode]
+	st.mu.Unlock()
+	zzsim.Event("the connection is lost (mode %d) while a subscriber's queue is full", mode)
+	switch mode {
+	case 1:
+		cl.Channel().EndPoint().Close()
+	case 2:
+		conn.Peer().Abort()
+	default:
+		conn.Peer().Close()
+	}
+	<-done
+	// only now does the subscriber look at its channel: it must find it closed
+	// behind whatever was queued
+	go func() {
+		for range ch {
+		}
+		st.mu.Lock()
+		st.subsClosed++
+		st.mu.Unlock()
+	}()
 }
 
 func c11call(env *core.Env, p probe.ProbeProxy, kind string, a, i int) {
